@@ -331,6 +331,41 @@ namespace sim
         return base_ + off;
     }
 
+    void* SimHeap::harness_alloc_at(std::size_t off, std::size_t size)
+    {
+        if (off + size > size_ || size == 0)
+            return nullptr;
+        auto it = live_.lower_bound(off);
+        if (it != live_.end() && it->first < off + size)
+            return nullptr;
+        if (it != live_.begin())
+        {
+            --it;
+            if (it->second.off + it->second.size > off)
+                return nullptr;
+        }
+        Block b;
+        b.off             = off;
+        b.size            = size;
+        b.align           = 1;
+        b.owner           = OWNER_HARNESS;
+        b.seq             = ++seq_;
+        b.committed_pages = 0;
+        live_[off]        = b;
+        SIM_UNPOISON(base_ + off, size);
+        fill_garbage(base_ + off, size, b.seq);
+        return base_ + off;
+    }
+
+    std::vector<std::pair<std::size_t, std::size_t>> SimHeap::blocks_of(int owner) const
+    {
+        std::vector<std::pair<std::size_t, std::size_t>> r;
+        for (auto& kv : live_)
+            if (kv.second.owner == owner)
+                r.push_back({kv.second.off, kv.second.size});
+        return r;
+    }
+
     void SimHeap::harness_free(void* p)
     {
         auto it = live_.find(off(p));
